@@ -1135,9 +1135,10 @@ fn cfg_numbers(harness: &str, preset: &str, seed: u64) -> Option<String> {
         // the probability `should_buggify` will read: the real FaultConfig::get of this preset
         let p = c.fault_config.get(faults::process::CRASH);
         return Some(format!(
-            "{} {} {} {} {} {} {} {} {}",
+            "{} {} {} {} {} {} {} {} {} {}",
             c.node_count, p.to_bits(), c.crash_config.enable_buggify_crashes as u8, c.enable_clock_skew as u8,
-            c.max_clock_skew_ms * 2, c.max_clock_drift_ppm * 2, c.crash_config.min_recovery_time_ms, c.crash_config.max_recovery_time_ms, c.max_time_ms
+            c.max_clock_skew_ms * 2, c.max_clock_drift_ppm * 2, c.crash_config.min_recovery_time_ms, c.crash_config.max_recovery_time_ms, c.max_time_ms,
+            crate::cfg::CODE_DST_SORTS_NODES as u8
         ));
     }
     None
@@ -1209,7 +1210,6 @@ fn part_b(a: &Args, out: &mut Out) {
     let seeds: Vec<u64> = if thorough { (a.seed..a.seed + 20).collect() } else { (a.seed..a.seed + 5).collect() };
     let only = std::env::var("C20_ONLY").ok();
     let mut explored: BTreeMap<String, serde_json::Value> = BTreeMap::new();
-    let mut must_agree: Vec<serde_json::Value> = Vec::new();
     for fam in FAMILIES {
         if let Some(o) = &only {
             if !o.split(',').any(|x| x == fam.name) {
@@ -1321,12 +1321,6 @@ fn part_b(a: &Args, out: &mut Out) {
                         }
                         let pi = if fam.name == "dst" { format!(" {}", t.pi.iter().map(|x| x.to_string()).collect::<Vec<_>>().join(" ")) } else { String::new() };
                         out.op(format!("RUN {} {} {} {} {}{}", fam.name, preset, seed, ops, cfgn, pi), answer);
-                        if fam.name == "dst" {
-                            // a process-dependent trace is only the KNOWN finding when the model,
-                            // given that process's iteration order, predicts exactly that trace
-                            must_agree.push(json!([out.n_ops(), "C20:trace-differs-across-processes:dst"]));
-                            must_agree.push(json!([out.n_ops(), "C20:trace-differs-in-process:dst"]));
-                        }
                     }
                 }
             }
@@ -1335,7 +1329,6 @@ fn part_b(a: &Args, out: &mut Out) {
     }
     out.extra.insert("harness_runs".into(), json!(explored));
     out.extra.insert("children_per_run".into(), json!(k_children));
-    out.extra.insert("must_agree".into(), json!(must_agree));
 }
 
 pub fn run(a: &Args) {
